@@ -1268,6 +1268,7 @@ func TestVerifC06ExpiresDuring(t *testing.T) {
 	}
 	run.Floor("judged_and_validated_certainly_before_expiry", 8)
 	run.Floor("rejected_after_expiry_during_activation", 8)
+	run.Floor("judged_queued_on_quota_lock", 2)
 	if run.Counter("watchdog") > 0 {
 		run.Floor("watchdog_free", 1)
 	}
